@@ -311,11 +311,19 @@ def run(ctx):
         fld = [x["name"] for x in H.walk(it) if H.kind(x) == "Field"]
         ctx.inst("C19.R3", "main#flags-in-order", "input" in fld and set(names) <= {"iter", "enumerate", "deref"} and "rev" not in names, "iterates ARGS.%s via %s" % (fld, names), H.loc(lp))
         inner = [n for n in H.walk(lp["body"]) if H.kind(n) == "For"]
-        okm = False
+        okm = None
         if inner:
             ins = [x for x in H.walk(inner[0]["body"]) if H.kind(x) == "MethodCall" and x["name"] == "insert"]
             conds = [x for x in H.walk(inner[0]["body"]) if H.kind(x) in ("If", "Match", "Continue", "Break")]
             okm = len(ins) == 1 and not conds and set(H.pat_binds(inner[0]["pat"])) == {H.path_local(a) for a in ins[0]["args"]}
+        else:
+            # `merged.extend(map)`: IndexMap::extend inserts every pair in order, a later key replacing the earlier value
+            ext = [x for x in H.walk(lp["body"]) if H.kind(x) == "MethodCall" and x["name"] == "extend" and "IndexMap" in (x.get("recv_ty") or x["recv"].get("ty") or "")]
+            first_wins = [x for x in H.walk(lp["body"]) if H.kind(x) == "MethodCall" and x["name"] in ("or_insert", "or_insert_with", "entry", "contains_key", "get")]
+            if ext and not first_wins:
+                okm = True
+            elif first_wins:
+                okm = False
         ctx.inst("C19.R3", "main#merge-later-wins", okm, "every (key, value) of each flag's map is inserted unconditionally into the merged map: %s" % okm, H.loc(lp))
     ctr = set()
     for n in pj_calls:
